@@ -439,22 +439,34 @@ func writeReplay(path, id string, g *group, cfg *PropConfig) bool {
 	if o == nil {
 		o = g.Obls[0]
 	}
+	confirmed := false
+	var attempts []map[string]interface{}
+	// try the sat instances of this obligation (different roots / paths) until one reproduces on the real code
+	tried := 0
+	for _, cand := range g.Obls {
+		if cand.Result == nil || cand.Result.Status != "sat" || tried >= 6 {
+			continue
+		}
+		src, ok := buildReplayTest(cand)
+		if !ok {
+			continue
+		}
+		tried++
+		out, failed := runReplayTest(src)
+		attempts = append(attempts, map[string]interface{}{"root": cand.Root, "path": cand.Trace, "replay_test": src.Source, "replay_output": out, "replay_confirms": failed})
+		if failed {
+			confirmed = true
+			o = cand
+			break
+		}
+	}
 	rec := map[string]interface{}{
 		"property": id, "obligation": g.Name, "kind": g.Kind, "clause": o.Desc, "pos": o.Pos, "root": o.Root,
 		"solver_status": o.Result.Status, "solver": o.Result.Solver, "solver_output": firstLines(o.Result.Output, 40),
-		"path": o.Trace,
+		"path": o.Trace, "replay_attempts": attempts, "replay_confirms": confirmed,
 	}
-	confirmed := false
 	if o.Result.Status == "sat" {
 		rec["model"] = o.Result.Values
-		src, ok := buildReplayTest(o)
-		if ok {
-			rec["replay_test"] = src.Source
-			out, failed := runReplayTest(src)
-			rec["replay_output"] = out
-			rec["replay_confirms"] = failed
-			confirmed = failed
-		}
 	}
 	h := sha256.Sum256([]byte(o.Goal.S))
 	rec["goal_sha256"] = fmt.Sprintf("%x", h[:8])
@@ -482,7 +494,41 @@ func (e *Engine) discharge(workdir string, timeout int) {
 			}
 			q := e.u.Query(o.Assumes, o.Goal, gv)
 			r := Solve(workdir, fmt.Sprintf("%s.%d", o.Name, i), q, timeout, nil)
+			if r.Status == "sat" && o.Hint != nil && !o.ExpectSat {
+				// look for a more realistic counterexample (replay hint); the verdict is already fixed
+				q2 := e.u.Query(append(append([]Term(nil), o.Assumes...), *o.Hint), o.Goal, gv)
+				r2 := Solve(workdir, fmt.Sprintf("%s.%d.hint", o.Name, i), q2, 5, nil)
+				if r2.Status == "sat" {
+					r.Values = r2.Values
+					r.Output = r2.Output
+				}
+			}
 			o.Result = &r
+		}(i, o)
+	}
+	wg.Wait()
+	// second chance for undecided obligations, few at a time with a doubled budget:
+	// a loaded machine must not turn a 1 s proof into a reported failure
+	sem2 := make(chan struct{}, 3)
+	for i, o := range e.obligations {
+		if o.ExpectSat || o.Result == nil || o.Result.Status == "unsat" || o.Result.Status == "sat" {
+			continue
+		}
+		wg.Add(1)
+		go func(i int, o *Obligation) {
+			defer wg.Done()
+			sem2 <- struct{}{}
+			defer func() { <-sem2 }()
+			var gv []Term
+			for _, in := range o.InputVals {
+				gv = append(gv, modelTerms(in)...)
+			}
+			q := e.u.Query(o.Assumes, o.Goal, gv)
+			r := solveRace(workdir, fmt.Sprintf("%s.%d.retry", o.Name, i), q, 2*timeout, nil)
+			if r.Status == "unsat" || r.Status == "sat" {
+				r.Secs += o.Result.Secs
+				o.Result = &r
+			}
 		}(i, o)
 	}
 	wg.Wait()
